@@ -54,6 +54,18 @@ macro_rules! int_any {
 }
 int_any!(u8, u16, u32, u64, u128, usize, i8, i16, i32, i64, i128, isize);
 
+impl Arbitrary for f64 {
+  fn any() -> Self {
+    f64::from_le_bytes(next(8).try_into().unwrap())
+  }
+}
+
+impl Arbitrary for f32 {
+  fn any() -> Self {
+    f32::from_le_bytes(next(4).try_into().unwrap())
+  }
+}
+
 impl Arbitrary for bool {
   fn any() -> Self {
     next(1)[0] & 1 == 1
